@@ -81,6 +81,9 @@ func runC06(w *mon.Worker) {
 	for i := 0; i < w.Share(w.Scale(1600, 40000)); i++ {
 		w.Case("concurrent-setkey", nil, c06ConcurrentSetKeyCase)
 	}
+	for i := 0; i < w.Share(w.Scale(320, 8000)); i++ {
+		w.Case("sync-after-panic", nil, c06SyncAfterPanicCase)
+	}
 	mon.ClearProb()
 }
 
@@ -640,6 +643,32 @@ func c06ModelCase(c *mon.Case, refc, withDelay bool) {
 				fail("removekey-existed", "KeyedRefCount.RemoveKey(%s) returned %v, the model says %v", key, existed, me)
 				return
 			}
+		case k == 11 && r.IntN(2) == 0:
+			// context calls never change the key set, pending delayed removals included
+			if hasCtx && r.IntN(2) == 0 {
+				if w.rc != nil {
+					w.rc.ClearContext()
+				} else {
+					w.k.ClearContext()
+				}
+				hasCtx = false
+				log = append(log, "ClearContext")
+			} else {
+				if w.rc != nil {
+					w.rc.SetContext(ctx, false)
+				} else {
+					w.k.SetContext(ctx, false)
+				}
+				hasCtx = true
+				for _, mk := range model {
+					mk.started = true
+				}
+				log = append(log, "SetContext")
+			}
+			if !guardOK() {
+				return
+			}
+			c.Count("context_calls_in_model", 1)
 		default:
 			continue
 		}
@@ -1442,7 +1471,7 @@ func c07DelayedRemovalCase(c *mon.Case) {
 // whatever non-restarting calls land inside the backoff interval.
 func c07RetryTemplateCase(c *mon.Case) {
 	r := c.Rng
-	variant := r.IntN(6)
+	variant := r.IntN(7)
 	errKind := r.IntN(3) // 0 plain error, 1 context.Canceled value, 2 wrapped context.Canceled (the routine's own context stays live)
 	if variant == 5 {
 		errKind = 0
@@ -1527,6 +1556,12 @@ func c07RetryTemplateCase(c *mon.Case) {
 		case 4:
 			// a context change that does not restart errored routines must leave the retry in place
 			what = "SetContext(other context, restart=false)"
+			ctx2, _ := cx.fresh()
+			w.k.SetContext(ctx2, false)
+		case 6:
+			// clearing the context and setting another one (neither restarts errored routines) leaves the retry in place
+			what = "ClearContext, then SetContext(other context, restart=false)"
+			w.k.ClearContext()
 			ctx2, _ := cx.fresh()
 			w.k.SetContext(ctx2, false)
 		case 5:
@@ -1911,4 +1946,85 @@ func c07RetryPerKeyCase(c *mon.Case) {
 		c.Violate("retry", "keyed-failed-routine-not-retried", "WithRetry(exponential, MaxElapsedTime %v): key a failed %d times until its backoff gave up; key b, added afterwards, failed once within %v of being added and must be run again after its own backoff, but it ran %d time(s) in total (want 2)", maxElapsed, ra, fe.Sub(t0), rb)
 	}
 	k.ClearContext()
+}
+
+// c06SyncAfterPanicCase: a constructor callback panics in the middle of a SyncKeys call and the caller recovers. Whatever
+// that call managed to do, the key set stays consistent: a following SyncKeys removes exactly the keys that are present
+// and not listed, and reports them.
+func c06SyncAfterPanicCase(c *mon.Case) {
+	r := c.Rng
+	ctor := func(key string) (keyed.Routine, int) {
+		if key == "P" {
+			panic("constructor panics (recovered by the caller)")
+		}
+		return nil, 1
+	}
+	k := keyed.NewKeyed(ctor)
+	ctx, cancel := context.WithCancel(context.Background())
+	defer cancel()
+	if r.IntN(2) == 0 {
+		k.SetContext(ctx, false)
+	}
+	all := []string{"a", "b", "c", "d"}
+	for _, key := range all[:1+r.IntN(3)] {
+		k.SetKey(key, r.IntN(2) == 0)
+	}
+	// a list with the panicking key somewhere inside
+	var list []string
+	for _, key := range all {
+		if r.IntN(2) == 0 {
+			list = append(list, key)
+		}
+	}
+	pos := r.IntN(len(list) + 1)
+	list = append(list[:pos], append([]string{"P"}, list[pos:]...)...)
+	func() {
+		defer func() { _ = recover() }()
+		k.SyncKeys(list, r.IntN(2) == 0)
+	}()
+	c.Count("sync_after_panic_templates", 1)
+	c.NonTrivial()
+	c.Mix(mon.HashBytes([]byte(fmt.Sprint(list))))
+	present := map[string]bool{}
+	for _, key := range k.GetKeys() {
+		present[key] = true
+	}
+	var keep []string
+	for _, key := range all {
+		if r.IntN(3) == 0 {
+			keep = append(keep, key)
+		}
+	}
+	want := map[string]bool{}
+	for key := range present {
+		listed := false
+		for _, kk := range keep {
+			if kk == key {
+				listed = true
+			}
+		}
+		if !listed {
+			want[key] = true
+		}
+	}
+	_, removed := k.SyncKeys(keep, false)
+	got := map[string]bool{}
+	for _, key := range removed {
+		got[key] = true
+	}
+	if fmt.Sprint(got) != fmt.Sprint(want) {
+		c.Violate("model", "synckeys-removed", "a constructor panicked inside SyncKeys(%v) (recovered); the key set was then %v; SyncKeys(%v) returned removed=%v, the key set implies %v", list, present, keep, removed, want)
+		return
+	}
+	after := map[string]bool{}
+	for _, key := range k.GetKeys() {
+		after[key] = true
+	}
+	wantAfter := map[string]bool{}
+	for _, key := range keep {
+		wantAfter[key] = true
+	}
+	if fmt.Sprint(after) != fmt.Sprint(wantAfter) {
+		c.Violate("model", "keyset-mismatch", "after the panic in SyncKeys(%v) and SyncKeys(%v) the key set is %v, want %v", list, keep, after, wantAfter)
+	}
 }
